@@ -592,3 +592,117 @@ func HasHardField(op Op) bool {
 	}
 	return false
 }
+
+// GenHostile draws arguments a careless or hostile caller might pass: nil maps, nil/short/IPv6
+// addresses, zero and extreme dates and times, out-of-range enumeration values.
+func GenHostile(r *rand.Rand, op Op, serial uint32) Args {
+	a := GenArgs(r, op, serial)
+	wild := func() int {
+		return pick(r, -1, 4, 5, 13, 14, 255, 256, -128, 1<<31-1, -(1 << 31), 1000, 3, 0)
+	}
+	wildDate := func() Date {
+		switch r.Intn(5) {
+		case 0:
+			return Date{Zero: true}
+		case 1:
+			return Date{Y: pick(r, 0, -1, 10000, 12345, 99999), M: pick(r, 0, 1, 12, 13, -1), D: pick(r, 0, 1, 31, 32, -1)}
+		}
+		return GenDate(r)
+	}
+	wildHHmm := func() HHmm {
+		if r.Intn(2) == 0 {
+			return HHmm{pick(r, -1, 24, 25, 99, 100, 255, -100), pick(r, -1, 59, 60, 61, 99, 100, 1000)}
+		}
+		return GenHHmm(r)
+	}
+	switch op {
+	case SetAddress:
+		odd := [][]byte{nil, {}, {1}, {1, 2, 3}, {1, 2, 3, 4, 5}, make([]byte, 16), make([]byte, 17), {0x20, 0x01, 0x0d, 0xb8, 0, 0, 0, 0, 0, 0, 0, 0, 0, 0, 0, 1}}
+		for i := 0; i < 3; i++ {
+			if r.Intn(2) == 0 {
+				a.IPs[i] = append([]byte(nil), odd[r.Intn(len(odd))]...)
+				if r.Intn(4) == 0 {
+					a.IPs[i] = nil
+				}
+			}
+		}
+	case SetListener:
+		a.AddrPort = pick(r, "", "0.0.0.0:0", "[::1]:60001", "[fe80::1%eth0]:60001", "[::ffff:10.0.0.1]:60001", "255.255.255.255:65535", "[::]:0", "10.0.0.1:0")
+	case SetDoorControlState:
+		a.State = wild()
+	case SetTime:
+		if r.Intn(2) == 0 {
+			c := a.Time
+			c.Unix = pick(r, int64(-62135596800), 253402300799, 253402300800, -62135596801, 1<<40, -(1 << 40), 0)
+		}
+	case PutCard:
+		c := a.Card
+		c.From, c.To = wildDate(), wildDate()
+		if r.Intn(3) == 0 {
+			c.Doors = nil
+		}
+		c.PIN = pick(r, uint32(0), 999999, 1000000, 0xffffffff, 0x00ffffff)
+		a.Formats = pick(r, nil, []int{}, []int{2}, []int{255}, []int{1, 2, 0}, []int{-1})
+	case SetTimeProfile:
+		p := a.Profile
+		p.From, p.To = wildDate(), wildDate()
+		if r.Intn(3) == 0 {
+			p.Weekdays = nil
+		}
+		switch r.Intn(4) {
+		case 0:
+			p.Segments = nil
+		case 1:
+			p.Segments = map[uint8]Segment{1: {wildHHmm(), wildHHmm()}, 2: {wildHHmm(), wildHHmm()}, 3: {wildHHmm(), wildHHmm()}}
+		case 2:
+			p.Segments = map[uint8]Segment{0: {}, 4: {wildHHmm(), wildHHmm()}, 255: {}}
+		}
+	case AddTask:
+		t := a.Task
+		t.Type = wild()
+		t.From, t.To = wildDate(), wildDate()
+		t.Start = wildHHmm()
+		if r.Intn(2) == 0 {
+			t.Weekdays = nil
+		} else {
+			t.Weekdays = map[int]bool{-1: true, 7: true, 100: true, 0: true}
+		}
+	case SetDoorPasscodes:
+		a.U8 = GenU8(r)
+		n := r.Intn(12)
+		a.Passcodes = nil
+		for i := 0; i < n; i++ {
+			a.Passcodes = append(a.Passcodes, GenU32(r))
+		}
+	case SetInterlock:
+		a.U8 = GenU8(r)
+	case ActivateKeypads:
+		if r.Intn(2) == 0 {
+			a.NilMap, a.Readers = true, nil
+		} else {
+			a.Readers = map[uint8]bool{0: true, 5: true, 255: true, 1: r.Intn(2) == 0}
+		}
+	}
+	if r.Intn(10) == 0 {
+		a.Serial = 0
+	}
+	return a
+}
+
+// GenWild: a reply with a correct header for (op, serial) and arbitrary bytes behind it.
+func GenWild(r *rand.Rand, op Op, serial uint32) []byte {
+	b := make([]byte, 64)
+	r.Read(b)
+	b[0], b[1], b[2], b[3] = 0x17, op.Code(), 0, 0
+	le32(b, 4, serial)
+	// arbitrary bytes almost never pass the boolean and BCD checks: repair a random subset of fields
+	for _, f := range ReplyFields(op) {
+		if r.Intn(3) > 0 {
+			for i := 0; i < f.Kind.Width(); i++ {
+				b[f.Off+i] = 0
+			}
+			genField(r, f.Kind, b[f.Off:f.Off+f.Kind.Width()])
+		}
+	}
+	return b
+}
